@@ -16,6 +16,8 @@ bool decode_frame(const std::string &bytes, Frame &f) {
   ares_dns_record_t *rec = nullptr;
   if (ares_dns_parse((const unsigned char *)bytes.data(), bytes.size(), 0, &rec) != ARES_SUCCESS) return false;
   f.qid = ares_dns_record_get_id(rec);
+  f.rd  = (ares_dns_record_get_flags(rec) & ARES_FLAG_RD) ? 1 : 0;
+  f.cd  = (ares_dns_record_get_flags(rec) & ARES_FLAG_CD) ? 1 : 0;
   const char         *name = nullptr;
   ares_dns_rec_type_t qt;
   ares_dns_class_t    qc;
@@ -59,7 +61,7 @@ static void marker_addr6(int m, struct ares_in6_addr *a) {
 //           | "wrongclient:<tag>" | "short" (4 bytes) | "long" (41 bytes)
 std::string build_reply(const Frame &f, const J &st, int pid, std::string &desc) {
   std::string kind = st["kind"].str("ok");
-  char        b[512];
+  char        b[1024];
   if (kind == "garbage") {
     desc = "\"kind\":\"garbage\",\"parse\":0,\"len\":5";
     return std::string("\x12\x34\xff\xff\xff", 5);
@@ -103,6 +105,7 @@ std::string build_reply(const Frame &f, const J &st, int pid, std::string &desc)
                              (unsigned int)st["cnamettl"].num(ttl));
       owner = "c." + lower(qname);
       ares_dns_rr_set_str(rr, ARES_RR_CNAME_CNAME, owner.c_str());
+      ttls += std::to_string((unsigned int)st["cnamettl"].num(ttl));
       nans++;
     }
     for (int i = 0; i < n && kind != "cname_only"; i++) {
@@ -146,6 +149,19 @@ std::string build_reply(const Frame &f, const J &st, int pid, std::string &desc)
     ares_dns_rr_set_u32(rr, ARES_RR_SOA_EXPIRE, 1);
     ares_dns_rr_set_u32(rr, ARES_RR_SOA_MINIMUM, soamin);
   }
+  std::string xttls;
+  if (st.has("gluettl")) {  // an NS record in the authority section and its glue in the additional section
+    ares_dns_rr_t *rr = nullptr;
+    unsigned int   g  = (unsigned int)st["gluettl"].num();
+    unsigned int   nt = (unsigned int)st["nsttl"].num(300);
+    ares_dns_record_rr_add(&rr, rec, ARES_SECTION_AUTHORITY, "test", ARES_REC_TYPE_NS, ARES_CLASS_IN, nt);
+    ares_dns_rr_set_str(rr, ARES_RR_NS_NSDNAME, "ns.test");
+    ares_dns_record_rr_add(&rr, rec, ARES_SECTION_ADDITIONAL, "ns.test", ARES_REC_TYPE_A, ARES_CLASS_IN, g);
+    struct in_addr a4;
+    marker_addr4(0, &a4);
+    ares_dns_rr_set_addr(rr, ARES_RR_A_ADDR, &a4);
+    xttls = std::to_string(nt) + "," + std::to_string(g);
+  }
   // OPT: echoed when the query had one, unless noopt
   bool        opt = f.edns && !st["noopt"].num();
   std::string ck  = st["cookie"].str(f.cookie.empty() ? "none" : "echo");
@@ -174,9 +190,9 @@ std::string build_reply(const Frame &f, const J &st, int pid, std::string &desc)
   ares_dns_record_destroy(rec);
   snprintf(b, sizeof b,
            "\"kind\":\"%s\",\"parse\":1,\"qid\":%d,\"qt\":%d,\"qc\":%d,\"rcode\":%d,\"tc\":%d,\"opt\":%d,\"an\":%d,\"ttls\":[%s],"
-           "\"soa\":%d,\"soattl\":%u,\"soamin\":%u,\"clen\":%zu,\"forseq\":%d,",
+           "\"soa\":%d,\"soattl\":%u,\"soamin\":%u,\"clen\":%zu,\"forseq\":%d,\"xttls\":[%s],",
            kind.c_str(), qid, qtype, qclass, (int)rcode, (flags & ARES_FLAG_TC) ? 1 : 0, opt ? 1 : 0, nans, ttls.c_str(), soa, soattl,
-           soamin, cookie.size(), f.seq);
+           soamin, cookie.size(), f.seq, xttls.c_str());
   desc = b;
   desc += "\"ck\":" + jstr(cookie.size() >= 8 ? cookie.substr(0, 8) : cookie) + ",";
   desc += "\"sk\":" + jstr(cookie.size() > 8 ? cookie.substr(8) : "") + ",";
@@ -209,11 +225,13 @@ std::string describe_dnsrec(const ares_dns_record_t *rec) {
       const char *d = ares_dns_rr_get_str(rr, ARES_RR_PTR_DNAME);
       if (d && d[0] == 'm') m = atoi(d + 1);
     } else {
-      continue;  // CNAME etc: no marker
+      m = -2;  // CNAME etc: no marker
     }
-    if (!markers.empty()) { markers += ","; ttls += ","; }
-    markers += std::to_string(m);
+    if (!ttls.empty()) ttls += ",";
     ttls += std::to_string(ares_dns_rr_get_ttl(rr));
+    if (m == -2) continue;
+    if (!markers.empty()) markers += ",";
+    markers += std::to_string(m);
   }
   char b[256];
   snprintf(b, sizeof b, "\"rec\":1,\"rcode\":%d,\"an\":%zu,\"tcflag\":%d,\"rid\":%d,", (int)ares_dns_record_get_rcode(rec), an,
